@@ -26,8 +26,10 @@ ATOMS = [("1=p", None), ("a", "a"), (" a", " a"), ("a ", "a "), ("\na", "\na"), 
          ("t=one\ntwo", None), (" u = * a\n* b\n", None),
          ("{{kn}}=cv", None), ("{{one}}=nv", None), ("{{kv}}", "q=v"),
          # blanks protected by nowiki survive the trimming of a named value (the idiom for passing a separator)
-         ("s=<nowiki> , </nowiki>", None), ("r= <nowiki> </nowiki>x ", None)]
-EXPAND = {"{{a|z}}": "A[z]", "{{pad}}": " x ", "{{kn}}": "cn", "{{one}}": "1", "{{kv}}": "q=v"}
+         ("s=<nowiki> , </nowiki>", None), ("r= <nowiki> </nowiki>x ", None),
+         # a value that expands to literal braces ({{lb}} = "{{", {{rb}} = "}}"): expanded once, never again
+         ("{{lb}}a{{!}}y{{rb}}", "{{a|y}}")]
+EXPAND = {"{{a|z}}": "A[z]", "{{pad}}": " x ", "{{kn}}": "cn", "{{one}}": "1", "{{kv}}": "q=v", "{{lb}}a{{!}}y{{rb}}": "{{a|y}}"}
 
 ECHO = r"""
 local e = {}
@@ -76,6 +78,9 @@ LIB = {
     "Template:kn": "cn",
     "Template:one": "1",
     "Template:kv": "q=v",
+    "Template:lb": "{{",
+    "Template:rb": "}}",
+    "Template:!": "|",
     "Template:w1": "{{#invoke:echo|both|{{{1}}}|k={{{k|}}}}}",
     "Template:w2": "{{w1|{{{1}}}|k={{{k|}}}}}",
     "Template:pw": "{{#invoke:echo|pp|{{{1}}}}}",
@@ -212,6 +217,8 @@ def check_args(ctx, lst):
             wantf = {1: wantf[1], "k": wantf["k"]}
         # a forwarded value that contains '=' is split again when it is substituted for {{{1}}} (known finding, as C04 K11)
         eq = "_equals_sign_through_parameter" if "=" in fwd[1] and "{{{" not in fwd[1] else ""
+        if fwd[1].startswith("{{a|"):
+            eq = "_literal_braces_through_parameter"    # same root cause: the substituted text is parsed again
         if parse_dump(f) != wantf:
             out.append(("frame_args_depth%d%s" % (depth, eq), js(parse_dump(f)), js(wantf)))
         title, pargs = p.split("##", 1)
